@@ -207,7 +207,7 @@ func runConc(in *bufio.Scanner, w *bufio.Writer) {
 				atomic.StoreInt64(&connSent, 0)
 				atomic.StoreInt64(&connStarted, 0)
 				atomic.AddInt64(&connNo, 1)
-				frameLogIntervalFirstMin, frameLogInterval = 15, 60*5
+				vResetLogVars()
 				go func() {
 					defer func() {
 						if e := recover(); e != nil {
